@@ -10,9 +10,19 @@ def inv(rc, total, reserved=0, min_unit=1, max_unit=MAX_INT, step_size=1, ratio=
             'step_size': step_size, 'ratio': ratio}
 
 
+_INV_DEFAULTS = {'reserved': 0, 'min_unit': 1, 'max_unit': MAX_INT, 'step_size': 1, 'allocation_ratio': 1.0}
+
+
 def _inv_body(i):
-    return {'total': i['total'], 'reserved': i['reserved'], 'min_unit': i['min_unit'], 'max_unit': i['max_unit'],
-            'step_size': i['step_size'], 'allocation_ratio': i['ratio']}
+    """the body of one inventory; a field whose value is the documented default is LEFT OUT about every other time
+    (decided by the values themselves, so that a replay sends the same bytes): the service must fill in the default"""
+    b = {'total': i['total'], 'reserved': i['reserved'], 'min_unit': i['min_unit'], 'max_unit': i['max_unit'],
+         'step_size': i['step_size'], 'allocation_ratio': i['ratio']}
+    import zlib
+    for k, dflt in _INV_DEFAULTS.items():
+        if b[k] == dflt and zlib.crc32(('%s|%s|%s' % (i.get('rc'), i['total'], k)).encode()) % 2 == 0:
+            del b[k]
+    return b
 
 
 def _group(allocs):
